@@ -789,7 +789,7 @@ func (s *c18Session) judge(rep *vk.Report, g *c18Group) {
 			return
 		}
 		sig.WriteString(st.Kind[:2])
-		sig.WriteString(st.ID[len(st.ID)-1:])
+		sig.WriteString(st.ID[max(len(st.ID)-1, 0):])
 		sig.WriteString(out[:1])
 		if stalledHere {
 			break
@@ -898,6 +898,10 @@ func c18GenGroup(gi int, r *rand.Rand) *c18Group {
 			continue
 		}
 		g.SubIDs = append(g.SubIDs, fmt.Sprintf("sub%c", 'A'+i))
+	}
+	if r.IntN(4) == 0 {
+		// the empty string is a subscription id like any other at this level
+		g.SubIDs[r.IntN(len(g.SubIDs))] = ""
 	}
 	for i := 0; i < nEv; i++ {
 		if lookAlike {
